@@ -59,4 +59,9 @@ theorem err_in_this_file (pf : Bytes → Option UInt64) (input : Bytes) (e : FEr
   | panic => exact absurd h (parse_source_no_panic pf input)
   | fuelOut => exact absurd h (parse_source_total pf input)
 
+/-- the same for `soyFile`, the front end with Go's float parsing (`pf := parseFloat64`, the
+    soft-float ParseFloat tied by C20f64): no parameter is left open -/
+theorem soyFile_err_in_this_file (input : Bytes) (e : FErr) (h : soyFile input = .error e) :
+    ∃ pos, e = .err pos ∧ pos ≤ input.length := err_in_this_file parseFloat64 input e h
+
 end SoyVerif.Props.C19
